@@ -20,7 +20,7 @@ RULE = ("Hypothesis-generated nested 3D plotfiles with even blocking factor (2, 
         "random, polynomial x*y+z, constant 1; in two thirds of the cases NaN / +-inf / 1e300 stored in the cells lying under a finer selected level) x level limit passed three ways (reader limit, volume_integral "
         "argument, the pestle CLI with -l) x volFrac on/off. Oracle: sum over cells not covered by a finer selected "
         "level of value*dV(*volFrac), rel. tol 1e-10 of sum|v|dV; constant 1 integrates to the domain volume; the same "
-        "data in another binary layout gives the same integral. Non-trivial = >= 2 levels with partial refinement "
+        "data in another binary layout gives the same integral; one reader object integrated again and again with other limits and fields (deepest first, then every shallower limit, then back up) answers like a fresh one each time. Non-trivial = >= 2 levels with partial refinement "
         "and (mixed extents or limit < finest).")
 ASSUMPTIONS = ["fields scaled so that sum|v|dV ~ 1 (the CLI prints 15 decimals)"]
 
@@ -163,6 +163,28 @@ def check_case(case, ctx):
                 v.append(f"integral of the constant 1 is {one!r}, domain volume {vol!r} (limit {limit})")
         except Exception as e:
             v.append(f"pestle raised {type(e).__name__}: {e} on the constant field")
+    # history: one reader object integrated several times with other limits (deepest first, then every shallower limit,
+    # then back up, alternating the field): every answer is the answer a fresh reader gives
+    if plot.nlev >= 2 and not v and not case["spec"]["payload"].get("junk"):
+        # (junk is only placed under the levels of this case's own limit: other limits would uncover it)
+        ctx.label("history:one-reader-several-limits")
+        from amr_kitchen import PlotfileCooker
+        from amr_kitchen.pestle import volume_integral
+        try:
+            pck = qcall(PlotfileCooker, src, ghost=True)
+            seq = [None] + list(range(plot.nlev - 2, -1, -1)) + list(range(1, plot.nlev))
+            for step, lim in enumerate(seq):
+                fi = case["field"] if step % 2 == 0 else (case["field"] + 1) % min(3, len(plot.fields))
+                Lh = plot.nlev - 1 if lim is None else lim
+                exp_h, scale_h = reference_integral(plot, fi, Lh, vi)
+                got_h = float(qcall(volume_integral, pck, plot.fields[fi], limit_level=lim, use_volfrac=case["volfrac"]))
+                if not abs(got_h - exp_h) <= 1e-10 * scale_h:
+                    v.append(f"call {step + 1} on one reader object (limits so far {seq[:step + 1]}): integral of {plot.fields[fi]} "
+                             f"with limit {lim} is {got_h!r}, reference {exp_h!r} (relative error "
+                             f"{abs(got_h - exp_h) / max(scale_h, 1e-300):.3e}, volfrac={case['volfrac']})")
+                    break
+        except Exception as e:
+            v.append(f"re-using one reader object raised {type(e).__name__}: {e}")
     # same data, other binary layout
     s2 = copy.deepcopy(case["spec"])
     s2["layout_override"] = case["layout2"]
